@@ -474,3 +474,4 @@ V('C12', 'bare-pubkey-template-indexes-before-length', WALLET, "            if (
 V('C13', 'wif-compression-marker-without-length-test', WALLET, "CKey.__init__(self, self[0:32], len(self) > 32 and self[32] == 1)", "CKey.__init__(self, self[0:32], self[32] == 1)", ['C13.I2', 'C13.L1'], scope='CBitcoinSecret.__init__')
 V('C14', 'recover-compact-header-before-length-test', KEY, "        if len(sig) != 65:\n            raise ValueError(\"Signature should be 65 characters, not [%d]\" % (len(sig), ))\n\n        recid = (sig[0] - 27) & 3",
   "        recid = (sig[0] - 27) & 3\n        if len(sig) != 65:\n            raise ValueError(\"Signature should be 65 characters, not [%d]\" % (len(sig), ))\n", 'C14.I2', scope='CPubKey.recover_compact')
+V('C08', 'benign-unspendable-length-alias', SCRIPT, "        return (len(self) > 0 and\n                self[0] == OP_RETURN)", "        size = len(self)\n        return (size > 0 and\n                self[0] == OP_RETURN)", 'SILENT', scope='CScript.is_unspendable')
